@@ -25,6 +25,7 @@ PROFILES = [
     ('pkg',       4, dict(reexport=0.9, roots=(1, 2), private_mods=0.8, star=0.3)),
     ('consumers', 4, dict(reexport=0.9, roots=(2, 3), consumer_roots=True, private_mods=0.8, star=0.3)),
     ('nested',    2, dict(reexport=0.9, roots=(1, 3), nested=0.6, subpkg=0.8, relative=0.8)),
+    ('rebind',    3, dict(reexport=0.9, roots=(1, 2), rebind_same=0.6, star=0.6, imports=(1, 4), private_mods=0.8)),
 ]
 
 
